@@ -1,7 +1,7 @@
 (* C20 - wire codecs: the property theorems, nothing else.  Each is closed by [exact] of a lemma proved in
    Codec/*.v and followed by Print Assumptions.  Bytes are Z values; payloads are arbitrary lists. *)
 From Icv Require Import Base.Tac Codec.NsModel Codec.NsDecimal Codec.NsProofs Codec.NsStreamProofs
-  Codec.JsModel Codec.JsProofs Codec.CodecOracle Codec.CodecOracleProofs.
+  Codec.JsModel Codec.JsProofs Codec.JsRoundtrip Codec.CodecOracle Codec.CodecOracleProofs Facts.Facts_c20.
 Local Open Scope Z_scope.
 
 (* ---- netstring, StreamReadContext variant (state file, replay log, objects file) ---- *)
@@ -119,24 +119,47 @@ Theorem C20_json_hex4 : forall x rest, 0 <= x < 65536 -> js_unhex4 (js_hex4 x ++
 Proof. exact js_unhex4_hex4. Qed.
 Print Assumptions C20_json_hex4.
 
-(* the round trip for strings and dictionary keys over ALL of Unicode (control characters, quote, backslash, DEL,
-   non-ASCII as \uXXXX, astral planes as surrogate pairs): what JsonEncoder::Strng writes, followed by anything,
-   is lexed back to the same bytes and the lexer stops right behind the closing quote.
-   This is the part of "js_decode (js_encode v) = Some v" that is proved; the composition over numbers, arrays and
-   dictionaries (token-level lemmas for js_lex_num / js_pval) is NOT proved - hence _partial.  It is exercised by
-   the correspondence run (real JsonDecode(JsonEncode(v)) = v on every generated value). *)
-Theorem C20_json_roundtrip_partial : forall cps more f,
-  Forall js_scalar cps -> (length cps < f)%nat ->
-  match js_quote (js_utf8_of cps) ++ more with
-  | q :: body => q = 34 /\ js_lex_str f body [] = Some (js_utf8_of cps, more)
-  | [] => False
-  end.
-Proof. exact js_string_roundtrip. Qed.
-Print Assumptions C20_json_roundtrip_partial.
+(* C20 for values: the receiver decodes a value equal to the sender's.  For ALL values of the data model -
+   null, booleans, integers up to 2^53 (JsNum), other finite doubles (JsFlt), strings and keys of well-formed UTF-8
+   over all of Unicode, arrays, key-sorted duplicate-free dictionaries - nested no deeper than the limit of the decoder.
+   binary64 printing (nlohmann Grisu2) and parsing (strtod + isfinite) are parameters of the model; what is assumed
+   about them are the three premises below (parse inverts print; what is printed is one JSON number token that is
+   not an integer literal; it is ASCII and starts with '-' or a digit).  They are exhibited on every generated
+   double by the correspondence run, not proved. *)
+Theorem C20_json_roundtrip :
+  forall (js_flt : Type) (js_fprint : js_flt -> list Z) (js_fparse : list Z -> option js_flt) (js_lim : option Z),
+  (forall x, js_fparse (js_fprint x) = Some x) ->
+  (forall x rest, match rest with [] => True | b :: _ => b = 44 \/ b = 93 \/ b = 125 end ->
+                  js_lex_num (js_fprint x ++ rest) = Some (js_fprint x, false, rest)) ->
+  (forall x, exists b t, js_fprint x = b :: t /\ (b = 45 \/ 48 <= b <= 57) /\ Forall (fun c => 0 <= c < 128) (b :: t)) ->
+  forall v : js_value js_flt,
+  js_wf js_flt v -> js_sorted js_flt v -> js_fits js_flt js_lim 0 v ->
+  js_decode js_flt js_fparse js_lim (js_encode js_flt js_fprint v) = Some v.
+Proof. exact js_roundtrip. Qed.
+Print Assumptions C20_json_roundtrip.
+
+(* without any hypothesis: values whose numbers are integers up to 2^53 (no JsFlt: the float type is empty) *)
+Theorem C20_json_roundtrip_integers : forall (js_lim : option Z) (v : js_value Empty_set),
+  js_wf _ v -> js_sorted _ v -> js_fits _ js_lim 0 v ->
+  js_decode Empty_set (fun _ => None) js_lim (js_encode Empty_set (fun x => match x with end) v) = Some v.
+Proof. exact js_roundtrip_integers. Qed.
+Print Assumptions C20_json_roundtrip_integers.
+
+(* the property's quantifier (nesting to depth 64) is inside the decoder's limit as it stands in the source *)
+Theorem C20_json_depth64_fits : forall (js_flt : Type) (v : js_value js_flt),
+  js_depth _ v <= 64 -> js_fits _ f_js_max_depth 0 v.
+Proof. exact js_depth64_fits. Qed.
+Print Assumptions C20_json_depth64_fits.
+
+(* the nesting limit of JsonDecode as it stands in the source now (regenerated fact): the property's own round-trip
+   quantifier (nesting to depth 64) lies inside it.  (None = the guard is not in the source: no limit in the model.) *)
+Theorem C20_json_depth_covers_quantifier : match f_js_max_depth with Some m => 64 < m | None => True end.
+Proof. vm_compute. reflexivity. Qed.
+Print Assumptions C20_json_depth_covers_quantifier.
 
 (* whole values: kernel-evaluated instances only (floats instantiated by an empty type: integers only) *)
 Example C20_json_roundtrip_examples :
-  let dec := js_decode Empty_set (fun _ => None) in
+  let dec := js_decode Empty_set (fun _ => None) f_js_max_depth in
   let enc := js_encode Empty_set (fun f => match f with end) in
   forallb (fun v => match dec (enc v) with Some v' => cd_bytes_eqb (enc v') (enc v) | None => false end)
     [ JsNull _; JsBool _ true; JsNum _ 0; JsNum _ (-9007199254740992); JsNum _ 18446744073709549568;
@@ -147,6 +170,30 @@ Example C20_json_roundtrip_examples :
   dec [91; 49; 44; 93] = None /\ dec [123; 34; 97; 34; 58; 49; 44; 34; 97; 34; 58; 50; 125] = Some (JsObj _ [([97], JsNum _ 2)]) /\
   dec [34; 92; 117; 100; 56; 48; 48; 34] = None /\ dec [48; 49] = None /\ dec [91; 93; 0; 120] = Some (JsArr _ []).
 Proof. vm_compute. repeat split. Qed.
+
+(* the JSON oracles run over implementation traces accept what the model computes: the round-trip oracle for every value
+   of the data model (same premises as C20_json_roundtrip, float comparison reflexive), the hostile-input oracle always *)
+Theorem C20_oracle_json_accepts_model :
+  forall (js_flt : Type) (js_fprint : js_flt -> list Z) (js_fparse : list Z -> option js_flt) (js_lim : option Z)
+         (js_feqb : js_flt -> js_flt -> bool) (js_fofz : Z -> js_flt),
+  (forall x, js_feqb x x = true) ->
+  (forall x, js_fparse (js_fprint x) = Some x) ->
+  (forall x rest, match rest with [] => True | b :: _ => b = 44 \/ b = 93 \/ b = 125 end ->
+                  js_lex_num (js_fprint x ++ rest) = Some (js_fprint x, false, rest)) ->
+  (forall x, exists b t, js_fprint x = b :: t /\ (b = 45 \/ 48 <= b <= 57) /\ Forall (fun c => 0 <= c < 128) (b :: t)) ->
+  forall v : js_value js_flt,
+  js_wf js_flt v -> js_sorted js_flt v -> js_fits js_flt js_lim 0 v ->
+  js_oracle_rt js_flt js_feqb js_fofz v (js_decode js_flt js_fparse js_lim (js_encode js_flt js_fprint v)) = true.
+Proof. exact js_oracle_rt_accepts_model. Qed.
+Print Assumptions C20_oracle_json_accepts_model.
+
+Theorem C20_oracle_json_hostile_accepts_model :
+  forall (js_flt : Type) (js_fparse : list Z -> option js_flt) (js_lim : option Z)
+         (js_feqb : js_flt -> js_flt -> bool) (js_fofz : Z -> js_flt),
+  (forall x, js_feqb x x = true) ->
+  forall input, js_oracle_dec js_flt js_fparse js_lim js_feqb js_fofz input (js_decode js_flt js_fparse js_lim input) = true.
+Proof. exact js_oracle_dec_accepts_model. Qed.
+Print Assumptions C20_oracle_json_hostile_accepts_model.
 
 (* non-vacuity: two frames (one empty) cut in the middle of a length prefix and of a payload *)
 Example C20_nonvacuous :
